@@ -22,6 +22,118 @@ fn pid(n: u64) -> PeerId {
     PeerId(x)
 }
 
+
+// ------------------------------------------------------------------ the layers as INSTALLED on generated servers
+
+/// C18 / C19 / C20: "with the layer installed" -- installed the way applications install it, on a method of
+/// a generated server with `add_layer_for_<method>`, alone or together with other layers added before or
+/// after it for the same method.  The limiter / authorizer must govern that method in every arrangement
+/// and must not touch the service's other methods.
+pub fn generated_server_stack(run: &mut Run, which: &str) -> anyhow::Result<()> {
+    use crate::codegen::{beta, Instr, Msg, H};
+    use anemo::codegen::InboundRequestLayer;
+    use anemo::middleware::add_extension::AddExtensionLayer;
+    #[derive(Clone)]
+    struct Marker(#[allow(dead_code)] u8);
+    let rt = tokio::runtime::Builder::new_current_thread().enable_all().start_paused(true).build()?;
+    for arrangement in 0..4u8 {
+        let h = H::default();
+        let which2 = which.to_string();
+        let problems: Vec<String> = rt.block_on(async {
+            let guard = || -> InboundRequestLayer<Msg, Msg> {
+                match which2.as_str() {
+                    "inflight" => InboundRequestLayer::new(anemo_tower::inflight_limit::InflightLimitLayer::new(1, anemo_tower::inflight_limit::WaitMode::ReturnError)),
+                    "rate" => InboundRequestLayer::new(anemo_tower::rate_limit::RateLimitLayer::new(governor::Quota::per_hour(std::num::NonZeroU32::new(1).unwrap()), anemo_tower::rate_limit::WaitMode::ReturnError)),
+                    _ => InboundRequestLayer::new(anemo_tower::rate_limit::RateLimitLayer::new(governor::Quota::per_hour(std::num::NonZeroU32::new(1).unwrap()), anemo_tower::rate_limit::WaitMode::ReturnError)),
+                }
+            };
+            let other = |k: u8| -> InboundRequestLayer<Msg, Msg> { InboundRequestLayer::new(AddExtensionLayer::new(Marker(k))) };
+            let server = beta::beta_server::BetaServer::new(h.clone());
+            let server: tower::util::BoxCloneService<Request<Bytes>, Response<Bytes>, Infallible> = if which2 == "auth" {
+                // the authorization layer works on raw requests: it is installed on the routes of a Router
+                // (`route_layer`), before or after other route layers, or on a router merged into another
+                let auth = || RequireAuthorizationLayer::new(AllowedPeers::new([pid(1)]));
+                let base = anemo::Router::new().add_rpc_service(server);
+                let r = match arrangement {
+                    0 => base.route_layer(auth()),
+                    1 => base.route_layer(auth()).route_layer(AddExtensionLayer::new(Marker(1))),
+                    2 => base.route_layer(AddExtensionLayer::new(Marker(1))).route_layer(auth()),
+                    _ => anemo::Router::new().route("/pkg.sub.Beta2/Two", crate::router::TagSvc(1)).route_layer(AddExtensionLayer::new(Marker(2))).merge(base.route_layer(auth())).route_layer(AddExtensionLayer::new(Marker(3))),
+                };
+                tower::util::BoxCloneService::new(r)
+            } else {
+                tower::util::BoxCloneService::new(match arrangement {
+                    0 => server.add_layer_for_m_one(guard()),
+                    1 => server.add_layer_for_m_one(guard()).add_layer_for_m_one(other(1)),
+                    2 => server.add_layer_for_m_one(other(1)).add_layer_for_m_one(guard()),
+                    _ => server.add_layer_for_m_one(other(1)).add_layer_for_m_one(guard()).add_layer_for_m_one(other(2)).add_layer_for_m_two(other(3)),
+                })
+            };
+            let mk = |id: u64, route: &str, peer: u64, instr: Instr| {
+                let body = Bytes::from(serde_json::to_vec(&Msg { id, via: String::new(), instr }).unwrap());
+                Request::new(body).with_route(route).with_extension(pid(peer))
+            };
+            let mut problems = vec![];
+            let reached = |h: &H, id: u64| h.0.lock().unwrap().iter().any(|x| x.1 == id);
+            match which2.as_str() {
+                "auth" => {
+                    let r1 = server.clone().oneshot(mk(1, "/pkg.sub.Beta/One", 2, Instr::Reply)).await.unwrap();
+                    if r1.status() != StatusCode::NotFound || reached(&h, 1) {
+                        problems.push(format!("an unlisted sender's request to the guarded method was answered {:?} (handler reached: {})", r1.status(), reached(&h, 1)));
+                    }
+                    let r2 = server.clone().oneshot(mk(2, "/pkg.sub.Beta/One", 1, Instr::Reply)).await.unwrap();
+                    if r2.status() != StatusCode::Success || !reached(&h, 2) {
+                        problems.push(format!("a listed sender's request to the guarded method was answered {:?}", r2.status()));
+                    }
+                }
+                "rate" => {
+                    let r1 = server.clone().oneshot(mk(1, "/pkg.sub.Beta/One", 1, Instr::Reply)).await.unwrap();
+                    let r2 = server.clone().oneshot(mk(2, "/pkg.sub.Beta/One", 1, Instr::Reply)).await.unwrap();
+                    if r1.status() != StatusCode::Success || r2.status() != StatusCode::TooManyRequests || reached(&h, 2) {
+                        problems.push(format!("quota 1 per hour: first request {:?}, second request {:?} (handler reached: {})", r1.status(), r2.status(), reached(&h, 2)));
+                    }
+                    let r3 = server.clone().oneshot(mk(3, "/pkg.sub.Beta/One", 2, Instr::Reply)).await.unwrap();
+                    if r3.status() != StatusCode::Success {
+                        problems.push(format!("another peer's first request was answered {:?}", r3.status()));
+                    }
+                }
+                _ => {
+                    let s1 = server.clone();
+                    let first = tokio::spawn(async move { s1.oneshot(mk(1, "/pkg.sub.Beta/One", 1, Instr::Sleep { ms: 500 })).await.unwrap() });
+                    tokio::time::sleep(Duration::from_millis(50)).await;
+                    let r2 = server.clone().oneshot(mk(2, "/pkg.sub.Beta/One", 1, Instr::Reply)).await.unwrap();
+                    if r2.status() != StatusCode::TooManyRequests || reached(&h, 2) {
+                        problems.push(format!("limit 1 with one request of the peer executing: a second one was answered {:?} (handler reached: {})", r2.status(), reached(&h, 2)));
+                    }
+                    let r3 = server.clone().oneshot(mk(3, "/pkg.sub.Beta/One", 2, Instr::Reply)).await.unwrap();
+                    if r3.status() != StatusCode::Success {
+                        problems.push(format!("another peer's request was answered {:?}", r3.status()));
+                    }
+                    let r1 = first.await.unwrap();
+                    let r4 = server.clone().oneshot(mk(4, "/pkg.sub.Beta/One", 1, Instr::Reply)).await.unwrap();
+                    if r1.status() != StatusCode::Success || r4.status() != StatusCode::Success {
+                        problems.push(format!("after the executing request finished ({:?}) the peer's next request was answered {:?}", r1.status(), r4.status()));
+                    }
+                }
+            }
+            // the sibling method carries no guard (the authorizer is installed on all routes of the service)
+            let r = server.clone().oneshot(mk(9, "/pkg.sub.Beta/Two", if which2 == "auth" { 1 } else { 2 }, Instr::Reply)).await.unwrap();
+            let r_again = server.clone().oneshot(mk(10, "/pkg.sub.Beta/Two", if which2 == "auth" { 1 } else { 2 }, Instr::Reply)).await.unwrap();
+            if r.status() != StatusCode::Success || r_again.status() != StatusCode::Success {
+                problems.push(format!("the layer installed for one method governs a sibling method: {:?}, {:?}", r.status(), r_again.status()));
+            }
+            problems
+        });
+        run.eval(&format!("generated-server-stack {which} arrangement {arrangement}"), true);
+        run.count("installed-on-generated-server", &format!("arrangement{arrangement}"));
+        let arr = ["alone", "guard, then another layer", "another layer, then guard", "other, guard, other"][arrangement as usize];
+        for p in problems {
+            run.oracle_fail(json!({"kind": format!("{which} layer installed on a generated server (add_layer_for_<method> / route_layer) does not govern it"), "arrangement": arr, "detail": p}));
+        }
+    }
+    Ok(())
+}
+
 // ------------------------------------------------------------------ C20
 
 #[derive(Clone)]
@@ -50,6 +162,7 @@ pub fn run_c20(run: &mut Run) -> anyhow::Result<()> {
     let n = if run.quick() { 6000 } else { 300_000 };
     // ---- allow-list authorizer
     let mut lines: Vec<(String, String, bool)> = vec![];
+    let mut fam_rounds = 0u64;
     rt.block_on(async {
         let mut i = 0;
         while i < n {
@@ -59,29 +172,48 @@ pub fn run_c20(run: &mut Run) -> anyhow::Result<()> {
                 _ => rng.below(50) as usize,
             };
             let universe = 1 + rng.below(60);
-            let mut list: Vec<u64> = (0..len).map(|_| rng.below(universe)).collect();
+            // identities: small numbers, or a FAMILY of closely related ids (one base id with the same mask
+            // XOR-ed into two positions): ids that any sloppy comparison, hash or truncation would confuse
+            let family = rng.chance(1, 4);
+            let base = rng.bytes(32);
+            let mut variant = |rng: &mut Rng| -> [u8; 32] {
+                let mut x = [0u8; 32];
+                x.copy_from_slice(&base);
+                let (a, b) = (rng.below(32) as usize, rng.below(32) as usize);
+                let m = 1 + rng.below(255) as u8;
+                if a != b {
+                    x[a] ^= m;
+                    x[b] ^= m;
+                }
+                x
+            };
+            let mut list: Vec<[u8; 32]> = if family { (0..len.min(24)).map(|_| variant(&mut rng)).collect() } else { (0..len).map(|_| pid(rng.below(universe)).0).collect() };
             if rng.chance(1, 4) && !list.is_empty() {
                 let d = list[0];
                 list.push(d); // duplicates
             }
             // several requests through clones of one layered service, concurrently; every request
             // carries its own invocation counter so that `invoked` is attributable per request
-            let layer = RequireAuthorizationLayer::new(AllowedPeers::new(list.iter().map(|&x| pid(x))));
+            let layer = RequireAuthorizationLayer::new(AllowedPeers::new(list.iter().map(|x| PeerId(*x))));
             let k = 1 + rng.below(8) as usize;
             let mut js = vec![];
             for _ in 0..k {
-                let sender = match rng.below(4) {
+                let sender: Option<[u8; 32]> = match rng.below(4) {
                     0 => None,
                     1 if !list.is_empty() => Some(*rng.pick(&list)),
-                    _ => Some(rng.below(universe + 3)),
+                    _ if family => Some(variant(&mut rng)),
+                    _ => Some(pid(rng.below(universe + 3)).0),
                 };
                 let mut req = Request::new(Bytes::from_static(b"payload"));
                 if let Some(s) = sender {
-                    req = req.with_extension(pid(s));
+                    req = req.with_extension(PeerId(s));
                 }
                 let own_counter = Arc::new(AtomicU64::new(0));
                 let svc1 = layer.clone().layer(CountingEcho(own_counter.clone()));
                 js.push((sender, own_counter, tokio::spawn(async move { svc1.oneshot(req).await.unwrap() })));
+            }
+            if family {
+                fam_rounds += 1;
             }
             for (sender, own_counter, h) in js {
                 let resp = h.await?;
@@ -90,8 +222,8 @@ pub fn run_c20(run: &mut Run) -> anyhow::Result<()> {
                 let l = &list;
                 let op = format!(
                     "auth.allow list={} sender={}",
-                    if l.is_empty() { "-".to_string() } else { l.iter().map(|x| hex::encode(pid(*x).0)).collect::<Vec<_>>().join(",") },
-                    sender.map(|s| hex::encode(pid(s).0)).unwrap_or_else(|| "none".into())
+                    if l.is_empty() { "-".to_string() } else { l.iter().map(hex::encode).collect::<Vec<_>>().join(",") },
+                    sender.map(hex::encode).unwrap_or_else(|| "none".into())
                 );
                 let out = format!("status={} invoked={}", resp.status().to_u16(), invoked);
                 let listed = sender.map(|s| l.contains(&s)).unwrap_or(false);
@@ -103,6 +235,7 @@ pub fn run_c20(run: &mut Run) -> anyhow::Result<()> {
         }
         anyhow::Ok(())
     })?;
+    run.extra.insert("allow_list_rounds_with_related_id_families".into(), json!(fam_rounds));
     for (op, out, bad) in lines {
         run.count("allow", &out);
         if bad {
@@ -187,6 +320,7 @@ pub fn run_c20(run: &mut Run) -> anyhow::Result<()> {
     if inv != expect_inv {
         run.oracle_fail(json!({"kind": "authorization layer: the wrapped service was invoked a different number of times than the authorizer accepted", "observed": inv, "expected": expect_inv}));
     }
+    generated_server_stack(run, "auth")?;
     Ok(())
 }
 
@@ -486,6 +620,10 @@ pub fn run_c18(run: &mut Run, replay: Option<&std::path::Path>) -> anyhow::Resul
         }
         run.count("config", &format!("limit={limit},{}", if block { "block" } else { "error" }));
     }
+    if replay.is_none() {
+        generated_server_stack(run, "inflight")?;
+        crate::streams::inflight_over_reconnect(run, if run.quick() { 6 } else { 150 })?;
+    }
     Ok(())
 }
 
@@ -738,5 +876,6 @@ pub fn run_c19(run: &mut Run) -> anyhow::Result<()> {
             run.oracle_fail(json!({"kind": "refusal carries wait-nanos 0", "hint": 0, "mode": "return-error", "count": zero, "of_refusals": refused, "quota": "1 per 2us"}));
         }
     }
+    generated_server_stack(run, "rate")?;
     Ok(())
 }
